@@ -4609,6 +4609,10 @@ class UDFFileIdentifierDescriptor:
             except UnicodeEncodeError:
                 self.fi = bytename.encode('utf-16_be')
                 self.encoding = 'utf-16_be'
+            if len(self.fi) + 1 > 255:
+                # The length of the identifier (plus the compression ID) is
+                # recorded in a single byte.
+                raise pycdlibexception.PyCdlibInvalidInput('The name is too long to fit into a UDF File Identifier')
             self.len_fi = len(self.fi) + 1
 
         self.parent = parent
